@@ -326,8 +326,6 @@ def py_check(case, obs):
     files = obs['files']
     why = []
     region = 0
-    if case['kind'] == 'legacy' and any(sd not in v['dims'] and v['masked'] and None in v['data'] for v in files[0]['vars']):
-        region = 1      # known finding: stack_files fills masked cells of variables without the stack dimension
     total = sum(dict((d[0], d[1]) for d in f['dims'])[sd] for f in files)
     f0 = files[0]
     exp_dims = sorted([d[0], total if d[0] == sd else d[1], d[2]] for d in f0['dims'])
